@@ -14,6 +14,7 @@ pub mod c12;
 pub mod c13;
 pub mod c14;
 pub mod c15;
+pub mod c16;
 pub mod c17;
 pub mod c19;
 pub mod c20;
@@ -54,6 +55,7 @@ pub fn plan(ctx: &Ctx) -> Option<Plan> {
         "C13" => Some(c13::plan(ctx)),
         "C14" => Some(c14::plan(ctx)),
         "C15" => Some(c15::plan(ctx)),
+        "C16" => Some(c16::plan(ctx)),
         "C17" => Some(c17::plan(ctx)),
         "C19" => Some(c19::plan(ctx)),
         "C20" => Some(c20::plan(ctx)),
